@@ -27,7 +27,7 @@ impl DuplicateStructFieldId {
                 .filter(|field| field.id().value().parse::<u32>().is_ok()),
             |field| field.id().value(),
             |duplicate, first| {
-                max_id += 1;
+                max_id = u32::wrapping_add(max_id, 1);
                 let free_id = max_id;
                 validate.add_error(Self {
                     schema_name: validate.schema_name().to_owned(),
